@@ -229,6 +229,15 @@ def workload(tier, seed, scale=1.0):
             for sv in svals:
                 cmds.append(cmd_sf('C02', 'mul', ty, a, sv, 'U', cell=('sf', 'mul', ty, n, sv.bit_length())))
                 cmds.append(cmd_sf('C02', 'mul', ty, -a, sv, 'I', cell=('sf', 'mulI', ty, n, sv.bit_length())))
+    # special-value pool pairs
+    from ..core import special_values
+    pool = special_values()
+    for a in pool:
+        for b in (pool if tier != 'quick' else pool[::4] + [a]):
+            if scale < 1.0 and rnd.random() > scale:
+                continue
+            cmds.append(cmd_mulv(a, b, 'pool'))
+            cmds.append(cmd_mulv(-a, b * rnd.choice((1, -1)), 'pool', 'I'))
     # zero operands
     for a in (0, 1, M64, 1 << 64):
         for b in (0, 1, (1 << 4000) - 1):
